@@ -105,6 +105,18 @@ def run(args):
         expect("Hostile with BytesMut::put reserving once violates NoOOB", False)
     except C.ToolError as e:
         expect("Hostile with BytesMut::put reserving once violates NoOOB", "NoOOB" in str(e))
+    for (side, mut, what) in (("buf", "chain_vec_prefix", "BufTree with the pre-fix Chain::chunks_vectored violates LawsAccept"),
+                              ("mut", "limit_keeps", "SinkTree with Limit::advance_mut forgetting `limit -= cnt` violates LawsAccept")):
+        try:
+            if side == "buf":
+                K.design_mc("selftest_buftree", 2, 2, 1, [0, 2, 3], ["remaining", "chunk", "advance", "chunks_vectored", "copy_to_bytes"], [], [0],
+                            leaf_types=["slice", "chunked"], mutation=mut, timeout=600)
+            else:
+                K.design_mc("selftest_sinktree", 2, 2, 2, [0, 1, 3], ["remaining_mut", "chunk_mut_len", "put_slice"], [], [0],
+                            leaf_types=["slice", "vec"], mutation=mut, side="mut", timeout=600)
+            expect(what, False)
+        except C.ToolError as e:
+            expect(what, "LawsAccept" in str(e))
     from . import atomics_model as M
     tab = {"bytes.rs:1 fetch_sub": ["Relaxed"]}
     ordrec = dict(M.DEFAULT, dec="Relaxed")
